@@ -273,6 +273,7 @@ class Extract:
         self.lidx = {id(l): i for i, l in enumerate(self.loci)}
         self.cidx = {id(p): {c: i for i, c in enumerate(p._compartments.keys())} for p in self.cms}
         self.hnames = []; self.hlines = {}; self.hkind = {}
+        self.unknown = []       # handlers of the real code that the model's handler table does not know (overridden in a subclass, renamed, ...)
 
     def locus_line(self, l):
         p = l.process(); ci = self.cidx.get(id(p)); i = self.inst.get(id(p))
@@ -317,7 +318,16 @@ class Extract:
             f = getattr(ef, '_orig', ef)
             cells = dict(zip(f.__code__.co_freevars, [c.cell_contents for c in f.__closure__]))
             qn = qn[:-len('#repeat')]
-        for a in ACTS[qn]:
+        acts_src = ACTS.get(qn)
+        if acts_src is None:
+            # not in the table: fall back to the inherited handler of the same name so that the run (and the oracles) can go on;
+            # the correspondence is reported as broken whatever the streams say
+            for base in type(p).__mro__:
+                if f"{base.__name__}.{qn.split('.')[-1]}" in ACTS:
+                    acts_src = ACTS[f"{base.__name__}.{qn.split('.')[-1]}"]; break
+            if acts_src is None: raise KeyError(qn)
+            self.unknown.append(qn)
+        for a in acts_src:
             w = a.split()
             if w[0] == 'CCL': acts.append(f"CCL {i} {ci[getattr(cls, w[1])]}")
             elif w[0] in ('OCC', 'HIT'): acts.append(f"{w[0]} {i}")
@@ -857,4 +867,5 @@ def run_case(case):
     inp += sr.lines
     inp.append(f"RUN {case['dyn']}")
     info['handlers'] = sorted(info['handlers']); info['rng'] = len(sr.lines); info['nspecial'] = sr.nspecial
+    if st.get('ex') is not None and st['ex'].unknown: info['unknown'] = sorted(set(st['ex'].unknown))
     return inp, exp, info
